@@ -1,9 +1,9 @@
 package main
 
 import (
-	"go/token"
 	"fmt"
 	"go/ast"
+	"go/token"
 	"go/types"
 	"strings"
 )
@@ -202,8 +202,8 @@ func init() { register("C11", runC11) }
 
 // audited nil-after-error sites (function|variable): reason.
 var nilAfterAudit = map[string]string{
-	"x/avs/keeper.EpochsHooksWrapper.AfterEpochEnd|power": "GetOperatorOptedUSDValue fails only for an operator that is opted in and has no value record; OptIn creates the record (InitOperatorUSDValue) before it marks the operator opted in and OptOut deletes it together with the opted-in mark (C05.R6 obligations), the only other deleter (DeleteAllOperatorsUSDValueForAVS) sits behind a nil/failed asset set, which GetAVSSupportedAssets never produces for a registered AVS (C05.R3 never-nil; the deleters, their callers, the delete-all condition and the validation of stored asset lists are decided by C11.R2w); a deregistered AVS gives avsAddr \"\", for which IsOptedIn is false and zeros are returned",
-	"x/feedistribution/keeper.Keeper.AllocateTokensToValidator|ops": "the validator's operator address comes from the operator registry (reverse lookup -> ValidatorByConsAddrForChainID) and operator records are never deleted, so OperatorInfo cannot miss",
+	"x/avs/keeper.EpochsHooksWrapper.AfterEpochEnd|power":           "GetOperatorOptedUSDValue fails only for an operator that is opted in and has no value record; OptIn creates the record (InitOperatorUSDValue) before it marks the operator opted in and OptOut deletes it together with the opted-in mark (C05.R6 obligations), the only other deleter (DeleteAllOperatorsUSDValueForAVS) sits behind a nil/failed asset set, which GetAVSSupportedAssets never produces for a registered AVS (C05.R3 never-nil; the deleters, their callers, the delete-all condition and the validation of stored asset lists are decided by C11.R2w); a deregistered AVS gives avsAddr \"\", for which IsOptedIn is false and zeros are returned",
+	"x/feedistribution/keeper.Keeper.AllocateTokensToValidator|ops": "the validator's operator address comes from the operator registry (reverse lookup -> ValidatorByConsAddrForChainID) and operator records are never deleted (decided by C11.R2w operator-record|never-deleted), so OperatorInfo cannot miss",
 	"x/oracle.AppModule.EndBlock|pubKey":                            "the protobuf public key is the one dogfood stored in its own ValidatorUpdates this block (built by ToTmProtoKey)",
 }
 
@@ -233,7 +233,7 @@ func runC11(r *Run) {
 	r.Assume = []string{"baseapp recovers panics in runTx only", "gov.EndBlocker -> Tally calls StakingKeeper.IterateDelegations and TotalBondedTokens (cosmos-sdk v0.47 x/gov/keeper/tally.go)"}
 	r.rule("C11.R1", "explicit panics / Must* / unchecked type assertions reachable from unrecovered roots are of an accepted class", 90)
 	r.rule("C11.R2", "no dereference of a pointer/map/interface result after its error was logged-and-continued or discarded", 2)
-	r.rule("C11.R2w", "witnesses for the audited nil-after-error site of the AVS epoch hook: who deletes operator value records and under which condition; asset lists stored in an AVS info were accepted by ValidateAssetIDs", 6)
+	r.rule("C11.R2w", "witnesses for the audited nil-after-error site of the AVS epoch hook: who deletes operator value records and under which condition; asset lists stored in an AVS info were accepted by ValidateAssetIDs; operator records are never deleted", 7)
 	c11HookWitnesses(r)
 	r.rule("C11.R3", "every division reachable from unrecovered roots has a non-zero divisor by construction, by a dominating test, or by validation at its writers", 8)
 	r.rule("C11.R3w", "witnesses for the audited divisor: TokenFeeder validation rejects Interval < 1; every writer of oracle params validates or constructs non-zero intervals", 4)
